@@ -157,6 +157,9 @@ def lifecycle_ops(rng, case, n_steps, profile):
         if step == stop_at:
             do(["stop", name])
             continue
+        if rng.random() < 0.05:
+            W.arm_reaction(rng, w, name, do)
+            continue
         if r < 0.45:
             q = w.net[name]
             if not q:
@@ -357,9 +360,16 @@ def oracle_c13_extra(case, run):
             chans = pub["channels"]
             before = prev["channels"] if prev is not None else []
             lows = collections.Counter(ev[1] for ev in events if ev[0] == "low")
+            # send() calls the application issued from inside an event handler during this step (accepted ones)
+            rsent = collections.Counter()
+            for ev in events:
+                if ev[0] == "rsend":
+                    rsent[ev[1]] += _nbytes(ev[2])
             for i, (cid, ready, buffered) in enumerate(chans):
+                if buffered < 0:
+                    return f"endpoint {n} channel #{i} id={cid}: bufferedAmount={buffered} is negative (step {k}, {inp[0]})"
                 if i >= len(before):
-                    if buffered != 0:
+                    if buffered != rsent.get(i, 0):
                         return f"endpoint {n} channel #{i}: bufferedAmount={buffered} at creation (step {k})"
                     continue
                 _, ready0, b0 = before[i]
@@ -368,8 +378,10 @@ def oracle_c13_extra(case, run):
                     if buffered - b0 != want:
                         return (f"endpoint {n} channel #{i} id={cid}: send() of {want} byte(s) in state {ready0} changed "
                                 f"bufferedAmount by {buffered - b0} (step {k})")
-                elif buffered > b0:
+                elif buffered > b0 + rsent.get(i, 0):
                     return f"endpoint {n} channel #{i} id={cid}: bufferedAmount grew {b0} -> {buffered} without send() (step {k}, {inp[0]})"
+                if i in rsent:
+                    continue        # not monotone within the step: the crossings are judged by the model comparison
                 if ready != "closed" and ready0 != "closed":
                     want_low = 1 if (b0 > thr[i] and buffered <= thr[i]) else 0
                     if lows.get(i, 0) != want_low:
